@@ -1073,7 +1073,9 @@ func SearchStreams(ctx context.Context, indexes []*Reader, limitIDs *bitmask.Lon
 			idx := indexes[idxIdx]
 
 			sortingLookup := (func() ([]uint32, error))(nil)
-			if resultLimit != 0 {
+			// the lookup is sorted by the first sorting key only, stopping early is not
+			// possible when further keys decide the order of streams with the same first key
+			if resultLimit != 0 && len(sorting) == 1 {
 				if section, ok := sorterLookupSections[sorting[0].Key]; sorter != nil && ok {
 					res := []uint32(nil)
 					reverse := sorting[0].Dir == query.SortingDirDescending
